@@ -890,6 +890,37 @@ class World:
         try:
             self.bdd.dump(fn, roots)
             back = self.bdd.load(fn)
+            # and into a fresh manager, which declares the variables as
+            # the loader meets them (`levels` false or true): canonical
+            # there as well - the loaded root is the reference that a
+            # node-by-node construction of the same function gives
+            lv = self.rng.random() < 0.5
+            fresh = self._b.BDD() if self.kind == 'bdd' else self._a.BDD()
+            try:
+                fback = fresh.load(fn, levels=lv)
+            except ValueError:
+                fback = None   # (a refusal is C12's and C17's business)
+            if fback is not None:
+                fraw = raw(fresh)
+                try:
+                    monitors.check_structure(fraw)
+                    monitors.check_order_maps(fresh)
+                except Violation as v:
+                    v.site = 'load-into-fresh-manager'
+                    raise
+                fvals = list(fback.values()) if as_dict else list(fback)
+                if set(fraw.vars) == set(self.sp.names):
+                    for e, h in zip(es, fvals):
+                        want = build(fraw, e.tt, self.sp)
+                        if node_of(h) != want:
+                            raise Violation(
+                                'load-into-fresh-manager',
+                                'same-function-different-reference',
+                                dict(loaded=node_of(h), built=want,
+                                     levels=lv))
+                self.ctx.count('loads_into_fresh_manager')
+                del fvals
+            del fback, fresh
         finally:
             if os.path.exists(fn):
                 os.remove(fn)
